@@ -237,6 +237,20 @@ pub fn c14_acc<T: Elem + Copy>(out: &mut Vec<String>, chain: &[T]) {
     let t = T::TAG;
     let ivs = all_intervals(chain);
     for i in &ivs {
+        // a copy compares equal to the original, through `==` and through every ordering operator
+        let c = *i;
+        let cl = i.clone();
+        out.push(format!(
+            "C14 copy {} {} => {} {} {} {} {} {}",
+            t,
+            enc_interval(i),
+            b(*i == c && *i == cl),
+            ord_str(i.partial_cmp(&c)),
+            b(*i <= c),
+            b(*i >= c),
+            b(*i < c),
+            b(*i > c)
+        ));
         let op: (Option<T>, Option<T>) = (*i).into();
         out.push(format!(
             "C14 acc {} {} => {} {} {} {} {} {} {} {} {} {} {} {} {}",
@@ -363,6 +377,24 @@ pub fn c13<T: Arith>(out: &mut Vec<String>, chain: &[T], scalars: &[T]) {
     }
 }
 
+/// interval arithmetic over an unsigned element type (`u8`): the results are the exact images whenever they are
+/// representable; an operation overflows (panics under overflow checks) only if a bound of the result does
+pub fn c13_unsigned(out: &mut Vec<String>, chain: &[u8], scalars: &[u8]) {
+    let ivs = all_intervals(chain);
+    for i in &ivs {
+        let ei = enc_interval(i);
+        for k in scalars {
+            out.push(format!("C13 add u {} {} => {}", ei, k, guarded(|| enc_interval(&(*i + *k)))));
+            out.push(format!("C13 sub u {} {} => {}", ei, k, guarded(|| enc_interval(&(*i - *k)))));
+        }
+        for j in &ivs {
+            let ej = enc_interval(j);
+            out.push(format!("C13 addi u {} {} => {}", ei, ej, guarded(|| format!("ok {}", enc_interval(&(*i + *j))))));
+            out.push(format!("C13 subi u {} {} => {}", ei, ej, guarded(|| format!("ok {}", enc_interval(&(*i - *j))))));
+        }
+    }
+}
+
 pub fn c13_rel(out: &mut Vec<String>, chain: &[f64]) {
     let ivs = all_intervals(chain);
     for i in &ivs {
@@ -440,7 +472,7 @@ pub fn c19_display<T: Elem + Copy + std::fmt::Display>(out: &mut Vec<String>, ch
             enc_interval(i),
             hexstr(&i.left().map(|x| format!("{}", x)).unwrap_or_default()),
             hexstr(&i.right().map(|x| format!("{}", x)).unwrap_or_default()),
-            hexstr(&format!("{}", i))
+            guarded(|| hexstr(&format!("{}", i)))
         ));
     }
 }
